@@ -61,6 +61,7 @@ def strip_keys(j, keys):
 
 
 def no_fbod(t):
+    if (getattr(t, "aggregate", None) or {}).get("fbod"): return False
     return not any(f["fbod"] for f in getattr(t, "fields", [])) and all(no_fbod(k) for k in t.kids)
 
 
